@@ -89,6 +89,9 @@ func loaderSequences(r *ev.Run, depth int, keyPrefix string, meta, replay bool) 
 				var got []byte
 				var err error
 				okT, pn := withTimeoutShort(func() { got, err = io.ReadAll(streams[o.handle]) })
+				if !okT {
+					seqHung = true
+				}
 				if !okT || pn != nil || err != nil || !bytes.Equal(got, f.Data) {
 					r.Violate(keyPrefix+"/replay-after-sequence", fmt.Sprintf("stream #%d replays %d bytes (err %v, returned %v, panic %v), its input has %d, in the sequence %v", o.handle+1, len(got), err, okT, pn, len(f.Data), trace), map[string]interface{}{"sequence": trace}, nil)
 				}
@@ -100,7 +103,7 @@ func loaderSequences(r *ev.Run, depth int, keyPrefix string, meta, replay bool) 
 		if len(seq) > 0 {
 			run(seq)
 		}
-		if len(seq) == depth || r.NViolations() > 25 {
+		if len(seq) == depth || r.NViolations() > 25 || seqHung {
 			return
 		}
 		for _, a := range alphabet {
@@ -137,7 +140,7 @@ func loaderSequences(r *ev.Run, depth int, keyPrefix string, meta, replay bool) 
 			}
 			seq = append(seq, op{inspect: true, handle: 0}, op{inspect: true, handle: 1}, op{inspect: true, handle: n - 1})
 			run(seq)
-			if r.NViolations() > 25 {
+			if r.NViolations() > 25 || seqHung {
 				break
 			}
 		}
@@ -146,6 +149,9 @@ func loaderSequences(r *ev.Run, depth int, keyPrefix string, meta, replay bool) 
 	r.DistinctN(seqs)
 	r.Set(keyPrefix+"_sequences", seqs)
 }
+
+// seqHung: a drain that did not return; further sequences would each wait for the time limit.
+var seqHung bool
 
 func withTimeoutShort(f func()) (bool, interface{}) {
 	return withTimeout(60e9, f)
